@@ -27,7 +27,7 @@ func init() {
 		ID:        "C18",
 		Level:     "exploration",
 		Technique: "Go race detector (-race build of the harness + shovel) over free-running production-wired tasks with real goroutine concurrency, head poller at 2 ms, wire delays, head growth and reorgs in flight; reports de-duplicated by innermost shovel frame pair",
-		Rule: "family A: one task with concurrency 2..8 and batch >= concurrency; family B: 2–5 tasks on one source client with overlapping ranges and different data plans (b+l, h+l, r, b+t, l, b+r) so cached block segments are shared while logs/receipts/traces are attached; " +
+		Rule: "family A: one task with concurrency 2..8 and batch >= concurrency; family C: 2–4 event integrations each attached to two sources (own client each), so two tasks built from one integration configuration decode and insert at the same time; family B: 2–5 tasks on one source client with overlapping ranges and different data plans (b+l, h+l, r, b+t, l, b+r) so cached block segments are shared while logs/receipts/traces are attached; " +
 			"each case runs real runner goroutines until every task has reached a head that grows and reorganises meanwhile; random 0–3 ms delays at both wire boundaries, head poller at 2 ms with injected poller failures. signature = (family, concurrency class, plans, reorgs seen, poller resets); trivial = fewer than 20 Converge executions.",
 		Assumptions: []string{
 			"the race detector only sees interleavings that occurred: a clean run is not race freedom",
@@ -45,7 +45,7 @@ func init() {
 		CrashIsViolation: true,
 		CaseTimeoutS:     240,
 		MinObs: func(tier string) map[string]int64 {
-			return map[string]int64{"converge_calls": 2000, "cases_reached_head": 80, "max_inflight_requests": 2, "poller_requests": 200, "shared_source_cases": 20, "reorgs_applied": 30, "poller_failures_injected": 10}
+			return map[string]int64{"converge_calls": 2000, "cases_reached_head": 80, "max_inflight_requests": 2, "poller_requests": 200, "shared_source_cases": 20, "one_integration_two_sources_cases": 20, "reorgs_applied": 30, "poller_failures_injected": 10}
 		},
 	})
 }
@@ -73,10 +73,17 @@ func c18Run(c *vk.Case) {
 	// very same cached segments and attach the same kind of data to their copies at the same time
 	samePlan := !familyA && c.Index%4 == 1
 	commonStart := uint64(1 + r.Intn(3))
+	// family C: every integration is attached to two sources (own client and cache each, same chain), so two
+	// tasks built from one integration config run at the same time; log plans so that both decode event data
+	twoSrc := !familyA && c.Index%4 == 3
 	for i := 0; i < nig; i++ {
 		d := &model.Decl{Name: namePoolIG[i], Enabled: true, Table: namePoolTbl[i], ColTypes: map[string]string{}, InFilter: map[string]model.Filter{}}
 		d.Sources = []model.SrcRef{{Name: namePoolSrc[0], Start: uint64(1 + r.Intn(3))}}
 		plan := c18Plans[(c.Index/2+i)%len(c18Plans)]
+		if twoSrc {
+			d.Sources = append(d.Sources, model.SrcRef{Name: namePoolSrc[1], Start: d.Sources[0].Start})
+			plan = c18Plans[[]int{0, 1, 4}[(c.Index/4+i)%3]]
+		}
 		if samePlan {
 			plan = c18Plans[(c.Index/4)%len(c18Plans)]
 			d.Sources[0].Start = commonStart
@@ -111,6 +118,13 @@ func c18Run(c *vk.Case) {
 		batch = 2 * r.Range(1, 3)
 	}
 	spec := &scen.Spec{Sources: []scen.SourceSpec{{Name: namePoolSrc[0], ChainID: 5, Batch: batch, Concurrency: conc, Poll: "2ms", Node: node}}, Decls: decls}
+	srcNames := []string{namePoolSrc[0]}
+	var node2 *simnode.Node
+	if twoSrc {
+		node2 = simnode.Global().NewNode(chain)
+		spec.Sources = append(spec.Sources, scen.SourceSpec{Name: namePoolSrc[1], ChainID: 5, Batch: r.Range(1, 4), Concurrency: 1, Poll: "2ms", Node: node2})
+		srcNames = append(srcNames, namePoolSrc[1])
+	}
 	env, err := scen.New(spec, false)
 	if err != nil {
 		c.Inconclusive("environment: %v", err)
@@ -124,11 +138,14 @@ func c18Run(c *vk.Case) {
 	if !familyA {
 		c.Obs("shared_source_cases", 1)
 	}
+	if twoSrc {
+		c.Obs("one_integration_two_sources_cases", 1)
+	}
 	// wire delays and poller failures
 	var hmu sync.Mutex
 	hr := r.Fork()
 	var pollerReqs, pollerFails int64
-	node.SetHook(func(info *simnode.ReqInfo) simnode.Action {
+	nodeHook := func(info *simnode.ReqInfo) simnode.Action {
 		hmu.Lock()
 		d := time.Duration(hr.Intn(3000)) * time.Microsecond
 		fail := info.Poller && hr.Chance(1, 60)
@@ -142,7 +159,11 @@ func c18Run(c *vk.Case) {
 			}
 		}
 		return act
-	})
+	}
+	node.SetHook(nodeHook)
+	if node2 != nil {
+		node2.SetHook(nodeHook)
+	}
 	pr := r.Fork()
 	env.PG.SetFaultHook(func(op *fakepg.Op) fakepg.Fault {
 		hmu.Lock()
@@ -204,9 +225,11 @@ func c18Run(c *vk.Case) {
 		head := chain.Head().Num
 		all := true
 		for _, d := range decls {
-			pm := newPairMon(c, env, namePoolSrc[0], d.Name)
-			if pos, ok := pm.captureLive().position(); !ok || pos != head {
-				all = false
+			for _, sn := range srcNames {
+				pm := newPairMon(c, env, sn, d.Name)
+				if pos, ok := pm.captureLive().position(); !ok || pos != head {
+					all = false
+				}
 			}
 		}
 		if all {
@@ -218,6 +241,9 @@ func c18Run(c *vk.Case) {
 	atomic.StoreInt32(&stop, 1)
 	wg.Wait()
 	node.SetHook(nil)
+	if node2 != nil {
+		node2.SetHook(nil)
+	}
 	env.PG.SetFaultHook(nil)
 	n := atomic.LoadInt64(&converges)
 	c.Obs("converge_calls", n)
@@ -245,7 +271,11 @@ func c18Run(c *vk.Case) {
 		for _, t := range env.Tasks {
 			plans += t.VerifInfo().Filter + ";"
 		}
-		c.SetSig("family=%v same=%v conc=%s plans=%s reorgs=%v pollfail=%v", map[bool]string{true: "A", false: "B"}[familyA], samePlan, cc, plans, reorgs > 0, atomic.LoadInt64(&pollerFails) > 0)
+		fam := map[bool]string{true: "A", false: "B"}[familyA]
+		if twoSrc {
+			fam = "C"
+		}
+		c.SetSig("family=%v same=%v conc=%s plans=%s reorgs=%v pollfail=%v", fam, samePlan, cc, plans, reorgs > 0, atomic.LoadInt64(&pollerFails) > 0)
 	}
 	if c.Index < 2 {
 		c.Sample(map[string]any{"config": string(env.ConfJSON), "converge_calls": n, "events": nevents, "reorgs": reorgs, "max_inflight": node.MaxInflight()})
